@@ -211,5 +211,12 @@ func runC10(tier string, seed uint64, o *Out) error {
 	if err := sessionRace(o, nrace); err != nil {
 		return err
 	}
+	nsql := 12
+	if tier == "thorough" {
+		nsql = 120
+	}
+	if err := sessionSQLCases(o, rng, nsql); err != nil {
+		return err
+	}
 	return nil
 }
